@@ -274,7 +274,7 @@ fn scenario_rows(which: usize) -> (u64, Vec<V>) {
 /// Distinct strings with 2-byte references: a database pre-loaded by the
 /// independent encoder to just below the limit, finished through the API.
 fn scenario_strings(which: usize) -> (u64, Vec<V>) {
-    let names = ["strings/reach-L-then-L+1", "strings/replace-at-L", "strings/free-then-reuse", "strings/batch-overshoot"];
+    let names = ["strings/reach-L-then-L+1", "strings/replace-at-L", "strings/free-then-reuse", "strings/batch-overshoot", "strings/full-free-one-then-existing-and-new"];
     let text: Vec<String> = vec!["a".into(), "b".into(), "c".into(), "d".into()];
     let mk_db = |n: usize| -> enc::EncDb {
         let rows: Vec<Vec<Val>> = (0..n).map(|i| vec![Val::Int(i as i32 + 1), Val::Str(format!("s{:05}", i))]).collect();
@@ -344,6 +344,17 @@ fn scenario_strings(which: usize) -> (u64, Vec<V>) {
             let three = vec![row(5, "x1")[0].clone(), row(6, "x2")[0].clone(), row(7, "x3")[0].clone()];
             c.step(&ins("S", three.clone()), true, add(three));
             c.step(&ins("S", row(8, "x4")), false, add(row(8, "x4")));
+            c.save_and_reopen(true);
+        }
+        4 => {
+            // pool full; one early entry freed; a batch that mentions a string
+            // stored *after* the freed entry and then one new string: the
+            // database then holds exactly L distinct strings, within the limit
+            c.step(&ins("S", vec![row(1, "new-1")[0].clone(), row(2, "new-2")[0].clone()]), true, add(vec![row(1, "new-1")[0].clone(), row(2, "new-2")[0].clone()]));
+            let del = Op::Delete { table: "S".into(), cond: Some(E::bin(Bin::Eq, E::col("K"), E::int(1))) };
+            c.step(&del, true, |m| m.retain(|r| r[0] != Val::Int(1)));
+            let two = vec![row(3, "s00005")[0].clone(), row(4, "brand-new")[0].clone()];
+            c.step(&ins("S", two.clone()), true, add(two));
             c.save_and_reopen(true);
         }
         _ => {
@@ -443,6 +454,68 @@ fn scenario_create_table_near_string_limit(free: usize) -> (u64, Vec<V>) {
         }
     }
     (steps, out)
+}
+
+/// create_table when _Validation is `free` rows below the row limit: the call
+/// adds one row per column there, after it has written _Columns and _Tables.
+fn scenario_create_table_near_row_limit(free: usize) -> (u64, Vec<V>) {
+    let name = format!("rows/create-table-with-{}-free-validation-rows", free);
+    let mut out: Vec<V> = Vec::new();
+    let fail = |out: &mut Vec<V>, class: &str, detail: String| out.push((format!("rows:{}", class), format!("[{}] {}", name, detail)));
+    let mut h = Harness::create(0).expect("create");
+    let have = match crate::report::catch(|| h.p().select_rows(msi::Select::table("_Validation")).map(|r| r.count()).unwrap_or(0)) {
+        Ok(n) => n,
+        Err(p) => return (0, vec![("rows:panic".into(), p)]),
+    };
+    let fill = 65536usize - free - have;
+    let rows: Vec<Vec<Val>> = (0..fill).map(|i| {
+        let mut r = vec![Val::s(&format!("G{}", i / 30)), Val::s(&format!("C{}", i % 30)), Val::s("N")];
+        r.extend(std::iter::repeat(Val::Null).take(7));
+        r
+    }).collect();
+    if !h.apply(&ins("_Validation", rows)).is_ok() {
+        return (1, out); // direct catalog edits refused: nothing to check
+    }
+    let observe = |h: &mut Harness| -> Result<(Vec<String>, usize, usize, usize), String> {
+        crate::report::catch(|| {
+            let p = h.p();
+            let tables: Vec<String> = p.tables().map(|t| t.name().to_string()).collect();
+            let mut n = |t: &str| p.select_rows(msi::Select::table(t)).map(|r| r.count()).unwrap_or(usize::MAX);
+            (tables, n("_Tables"), n("_Columns"), n("_Validation"))
+        })
+    };
+    let before = observe(&mut h);
+    let create = Op::CreateTable { name: "Nw".into(), cols: vec![ColSpec::new("K", Ty::I16).key(), ColSpec::new("Aa", Ty::I16).nullable(), ColSpec::new("Bb", Ty::I16).nullable()] };
+    match h.apply(&create) {
+        Outcome::Panic(p) => fail(&mut out, &format!("panic:create_table:{}", crate::report::panic_site(&p)), format!("create_table panicked: {}", p)),
+        Outcome::Err(e) => {
+            if h.pkg.is_none() {
+                fail(&mut out, "package-lost:create_table", e);
+                return (2, out);
+            }
+            let after = observe(&mut h);
+            if before != after {
+                fail(&mut out, "error-but-changed:create_table", format!("create_table returned an error ({}) but the catalog changed: {:?} -> {:?}", e, before, after));
+                return (2, out);
+            }
+        }
+        Outcome::Ok => {
+            if free < 3 {
+                // accepted although _Validation cannot take three more rows: then it must still reopen
+            }
+        }
+    }
+    let now = observe(&mut h);
+    match h.close_into_inner().and_then(Harness::open) {
+        Err(e) => fail(&mut out, "saved-file-refused-by-the-library", format!("after create_table at the row limit of _Validation the saved file does not reopen: {}", e)),
+        Ok(mut h2) => {
+            let re = observe(&mut h2);
+            if re != now {
+                fail(&mut out, "reopened-catalog-differs", format!("{:?} -> {:?}", now, re));
+            }
+        }
+    }
+    (3, out)
 }
 
 /// Two limits at once: the pool is full (65535 entries) and one string has
@@ -671,7 +744,7 @@ pub fn run(tier: Tier) -> i32 {
     for w in 0..7 {
         jobs.push(Box::new(move || scenario_rows(w)));
     }
-    for w in 0..4 {
+    for w in 0..5 {
         jobs.push(Box::new(move || scenario_strings(w)));
     }
     for w in 0..4 {
@@ -682,6 +755,9 @@ pub fn run(tier: Tier) -> i32 {
     }
     for free in 0..=8 {
         jobs.push(Box::new(move || scenario_create_table_near_string_limit(free)));
+    }
+    for free in 0..=4 {
+        jobs.push(Box::new(move || scenario_create_table_near_row_limit(free)));
     }
     for n in [1usize, 31, 32, 33, 34, 64] {
         jobs.push(Box::new(move || scenario_columns(n)));
@@ -711,7 +787,7 @@ pub fn run(tier: Tier) -> i32 {
     rep.set("distinct_nontrivial", jobs.len());
     rep.set("scenarios", jobs.len());
     rep.set("exhaustive", true);
-    rep.set("rule", "limits: rows per table (65535 / 65536 / 65537 in one batch, in two calls, across a reopen, after deletions; 40000 string keys), distinct strings with 2-byte references (pre-loaded to L-2 by the independent encoder, then L-1, L, L+1 through the API; replace at L; free then reuse; batch overshoot; create_table with 0..8 free entries left), references to one string (65534 / 65535 / 65536 cells, incremental + release; exact accounting by the independent decoder), columns per table (1, 31..34, 64), table / column / stream name lengths around 31/32, 60/61, 62/63, 64/65. distinct_nontrivial = scenarios (each a distinct boundary)");
+    rep.set("rule", "limits: rows per table (65535 / 65536 / 65537 in one batch, in two calls, across a reopen, after deletions; 40000 string keys), distinct strings with 2-byte references (pre-loaded to L-2 by the independent encoder, then L-1, L, L+1 through the API; replace at L; free then reuse; batch overshoot; create_table with 0..8 free entries left), create_table with 0..4 free rows left in _Validation, references to one string (65534 / 65535 / 65536 cells, incremental + release; exact accounting by the independent decoder), columns per table (1, 31..34, 64), table / column / stream name lengths around 31/32, 60/61, 62/63, 64/65. distinct_nontrivial = scenarios (each a distinct boundary)");
     rep.sample(json!({"scenario": "rows/two-calls", "calls": ["insert 65535 rows", "insert 1 row", "insert 1 row (65537th)", "save+reopen", "insert 1 row", "save+reopen"]}));
     rep.finish()
 }
